@@ -812,3 +812,14 @@ Proof.
   destruct C as [row [Hin Hp]]. rewrite Forall_forall in H.
   exact (total_run_reader (r_pid row) (r_reader row) d (H row Hin) p Hp).
 Qed.
+
+(* the same, with the side condition as "the pid is not one the table reads" *)
+Corollary unknown_pids_ignored_tbl : forall {R} (rt : list rrow) (build : tuple_of rt -> R) ps u tail,
+  ps <> [] -> Forall item_ok ps -> item_ok u -> ~ In (fst u) (map r_pid rt) ->
+  hdr_endianness (pl_hdr (params_bytes ps ++ tail)) = Ok false ->
+  tbl_from_bytes rt build (params_bytes (ps ++ [u]) ++ tail)
+  = tbl_from_bytes rt build (params_bytes ps ++ tail).
+Proof.
+  intros R rt build ps u tail Hne Hps Hu Hni Hle. apply unknown_pids_ignored; try assumption.
+  intros row Hin E. apply Hni. rewrite <- E. apply in_map. assumption.
+Qed.
